@@ -159,7 +159,20 @@ fn diags_in(ds: &[D], rule: &str, lo: usize, hi: usize) -> Vec<(usize, usize)> {
 fn run_c14(out: &mut Out, rng: &mut Rng, count: usize) {
   let mut linters: BTreeMap<&str, deno_lint::linter::Linter> = BTreeMap::new();
   for case_no in 0..count {
-    let (rule, name, tmpl) = REFS[case_no % REFS.len()];
+    let (rule, name0, tmpl) = REFS[case_no % REFS.len()];
+    // every fourth case the global's name is spelled with a Unicode escape wherever it occurs (reference, binder, decoy):
+    // `w\u0069ndow` *is* the identifier `window`, and the file then never contains the name literally (seed C14-7)
+    let escaped: String;
+    let name: &str = if rng.chance(1, 4) && name0.chars().count() >= 2 && name0.is_ascii() {
+      let cs: Vec<char> = name0.chars().collect();
+      let k = 1 + rng.below(cs.len() - 1);
+      let e = if rng.chance(1, 2) { format!("\\u{:04x}", cs[k] as u32) } else { format!("\\u{{{:x}}}", cs[k] as u32) };
+      escaped = format!("{}{}{}", cs[..k].iter().collect::<String>(), e, cs[k + 1..].iter().collect::<String>());
+      out.count("name-spelled-with-escape");
+      &escaped
+    } else {
+      name0
+    };
     let l = linters.entry(rule).or_insert_with(|| mk_linter(rules_by_codes(&[rule.to_string()]), &Words::default()));
     let reference = tmpl.replace('$', name);
     // (a) alone
@@ -189,11 +202,11 @@ fn run_c14(out: &mut Out, rng: &mut Rng, count: usize) {
       let (bname, pre, suf) = BINDERS[rng.below(BINDERS.len())];
       // in a Script the top-level declaration of the non-configurable `undefined` does not create a binding (and a
       // lexical one is an early error); it cannot be a class/function/import name in strict code either
-      if name == "undefined" && (bname.contains("import") || bname.contains("class") || bname.contains("function") || bname.starts_with("ts-")) {
+      if name0 == "undefined" && (bname.contains("import") || bname.contains("class") || bname.contains("function") || bname.starts_with("ts-")) {
         continue;
       }
       // `undefined`: a top-level declaration in a Script does not shadow the non-configurable global, so make it a module
-      let head = if name == "undefined" { "export {};\n" } else { "" };
+      let head = if name0 == "undefined" { "export {};\n" } else { "" };
       let src = format!("{}{}{}{}{}{}", head, pre.replace('$', name), lpre, reference, lsuf, suf.replace('$', name));
       let at = head.len() + pre.replace('$', name).len() + lpre.len();
       let meta = json!({"rule": rule, "name": name, "binder": bname, "layers": lnames, "src": src, "reference_at": at});
